@@ -441,6 +441,121 @@ fwd.close()
 for h in (h0, h1, h2, pxq):
     h.stop()
 
+# ---- a UDP session whose client has stopped reading (UDP over the HTTP listener's inline frames, i.e. over TCP): its
+#      answers pile up; other UDP sessions that reach their origin through the same upstream connector - for the QUIC
+#      connector with the datagram channel: over the same connection and the same dispatch task - must keep being answered
+class FloodOrigin:
+    """UDP origin: b'flood<n>' is answered with n datagrams of 1200 bytes (paced), anything else is echoed behind an R"""
+    def __init__(self):
+        self.s = socket.socket(socket.AF_INET, socket.SOCK_DGRAM)
+        self.s.bind(('127.0.0.1', 0))
+        self.port = self.s.getsockname()[1]
+        self.sent = 0
+        threading.Thread(target=self._loop, daemon=True).start()
+    def _loop(self):
+        while True:
+            try:
+                d, a = self.s.recvfrom(70000)
+            except OSError:
+                return
+            if d.startswith(b'flood'):
+                for i in range(int(d[5:])):
+                    try:
+                        self.s.sendto(b'F' * 1200, a)
+                        self.sent += 1
+                    except OSError:
+                        pass
+                    if i % 5 == 4:
+                        time.sleep(0.001)
+            else:
+                self.s.sendto(b'R' + d, a)
+    def close(self):
+        self.s.close()
+
+def udp_session_stalled(kind):
+    fo = FloodOrigin()
+    q = {k: free_port() for k in ('quic', 'hapi', 'http', 'fapi', 'hhttp')}
+    hop = Proxy({'listeners': [{'name': 'quic', 'type': 'quic', 'bind': f"127.0.0.1:{q['quic']}", 'tls': TLSS}, {'name': 'http', 'bind': f"127.0.0.1:{q['hhttp']}"}],
+                 'connectors': [{'name': 'direct'}], 'rules': [{'target': 'direct'}], 'metrics': {'bind': f"127.0.0.1:{q['hapi']}", 'ui': None}}, 'c14uh')
+    hop.api_port = q['hapi']
+    if not hop.start([q['hapi'], q['hhttp']]):
+        return {'error': 'hop: ' + hop.log()[-300:]}
+    conn = {'quic-datagrams': {'name': 'c', 'type': 'quic', 'server': 'localhost', 'port': q['quic'], 'bind': '127.0.0.1:0', 'inlineUdp': False, 'tls': TLSC},
+            'quic-inline': {'name': 'c', 'type': 'quic', 'server': 'localhost', 'port': q['quic'], 'bind': '127.0.0.1:0', 'inlineUdp': True, 'tls': TLSC},
+            'http-inline': {'name': 'c', 'type': 'http', 'server': '127.0.0.1', 'port': q['hhttp']}}[kind]
+    front = Proxy({'listeners': [{'name': 'http', 'bind': f"127.0.0.1:{q['http']}"}], 'connectors': [conn], 'rules': [{'target': 'c'}],
+                   'metrics': {'bind': f"127.0.0.1:{q['fapi']}", 'ui': None}}, 'c14uf')
+    front.api_port = q['fapi']
+    if not front.start([q['http'], q['fapi']]):
+        hop.stop()
+        return {'error': 'front: ' + front.log()[-300:]}
+    try:
+        def session(rcvbuf=None):
+            s = socket.socket()
+            if rcvbuf:
+                s.setsockopt(socket.SOL_SOCKET, socket.SO_RCVBUF, rcvbuf)
+            s.settimeout(5)
+            s.connect(('127.0.0.1', q['http']))
+            s2, code, head, rest = http_connect(q['http'], f'127.0.0.1:{fo.port}', extra_headers=b'Proxy-Protocol: udp\r\n', timeout=5, sock=s)
+            return s if code == 200 else None
+        def ask(s, payload, timeout=DEADLINE):
+            s.sendall(rpfm_frame(0, '127.0.0.1', fo.port, payload))
+            t = time.time()
+            while time.time() - t < timeout:
+                r = rpfm_read(s, timeout)
+                if r is None:
+                    return None
+                if r[2] == b'R' + payload:
+                    return time.time() - t
+            return None
+        b = session()
+        if b is None or ask(b, b'before') is None:
+            return {'error': 'the other session does not work before the scenario'}
+        a = session(rcvbuf=4096)
+        if a is None:
+            return {'error': 'the session that will stall was refused'}
+        for i in range(5):
+            a.sendall(rpfm_frame(0, '127.0.0.1', fo.port, b'flood2500'))
+            time.sleep(0.55)
+        time.sleep(0.7)
+        aport, txq = a.getsockname()[1], 0
+        for l in open('/proc/net/tcp').read().split('\n')[1:]:
+            f = l.split()
+            if len(f) > 4 and f[2].endswith(':%04X' % aport):
+                txq = int(f[4].split(':')[0], 16)
+        rts = []
+        for i in range(4):
+            dt = ask(b, f'probe{i}'.encode())
+            rts.append(None if dt is None else round(dt, 3))
+            if dt is None and i >= 1:
+                break
+            time.sleep(0.2)
+        c = session()
+        fresh = None if c is None else ask(c, b'fresh')
+        st, _ = front.api('GET', '/live', timeout=DEADLINE)
+        return {'kind': kind, 'flood_datagrams': fo.sent, 'unsent_bytes_queued_for_the_stalled_client': txq, 'other_session_round_trips': rts,
+                'fresh_session_round_trip': None if fresh is None else round(fresh, 3), 'api_live': st, 'alive': front.alive() and hop.alive()}
+    finally:
+        front.stop(); hop.stop(); fo.close()
+
+UKINDS = ['quic-datagrams', 'quic-inline', 'http-inline']
+for kind, r in zip(UKINDS, run_parallel(UKINDS, udp_session_stalled, workers=3)):
+    evals += 1
+    if isinstance(r, tuple) or 'error' in r:
+        machinery(f'stalled UDP session via {kind}: {r}')
+    if r['unsent_bytes_queued_for_the_stalled_client'] < 50_000:
+        machinery(f'stalled UDP session via {kind}: the client that stopped reading has only {r["unsent_bytes_queued_for_the_stalled_client"]} bytes queued - the scenario did not build up')
+    lost = [x for x in r['other_session_round_trips'] if x is None]
+    distinct.add(('udp-session-stalled', kind, bool(lost), r['fresh_session_round_trip'] is None))
+    rp = {'connector': kind, 'observed': r}
+    if lost:
+        chk.violation('stall.udp-session-not-read', f'blocked:other-udp-session:{kind}', f'one UDP-over-TCP client stopped reading ({r["unsent_bytes_queued_for_the_stalled_client"]} bytes queued for it): another UDP session through the same {kind} connector got no answer within {DEADLINE} s (round trips {r["other_session_round_trips"]})', rp)
+    if r['fresh_session_round_trip'] is None:
+        chk.violation('stall.udp-session-not-read', f'blocked:fresh-udp-session:{kind}', f'one UDP-over-TCP client stopped reading: a new UDP session through the same {kind} connector got no answer within {DEADLINE} s', rp)
+    if r['api_live'] != 200 or not r['alive']:
+        chk.violation('stall.udp-session-not-read', f'blocked:api:{kind}', f'GET /live -> {r["api_live"]}, processes alive: {r["alive"]}', rp)
+    samples.append({'udp_session_stalled': r})
+
 # ---- teardown of tunnels that are blocked on a slow peer: with timeouts.idle = 2 the proxy itself ends 32 tunnels
 #      whose peer has stopped reading (unsent bytes queued); while it does so everything else must keep being served
 for splice in (True, False):
